@@ -75,3 +75,37 @@ class GroupByType:
         if com:
             res["comments"] = com
         self_.final_result = res
+
+
+# ---------------------------------------------------------------------------------------------------------------------
+# the producers of flat items establish GroupByType's precondition (exactly one marker key per item); the session
+# settings record is produced outside the grammar, by the statement assembler
+
+WORD = r"[!-:<>-~][!-:<>-~]*"        # a word: printable, no white space, no ';', no '='
+
+
+@contract
+class ProcessSet:
+    """SET name = value;  /  SET name value;  is reported as ONE record {"name": name, "value": value}: the `value`
+    key is the marker that files it under ddl_properties, and it carries nothing else"""
+    fn = "parser.Parser.process_set"
+    props = ["C13", "C03"]
+    cases = {"name = value;": dict(eq=True, semi=True), "name = value": dict(eq=True, semi=False),
+             "name value;": dict(eq=False, semi=True), "name value": dict(eq=False, semi=False)}
+
+    def build(G, case):
+        n, v = G.str("name", WORD, "hive.x"), G.str("value", WORD, "1")
+        line = ("SET " + n + " = " + v) if case["eq"] else ("set " + n + "  " + v)
+        if case["semi"]:
+            line = line + ";"
+        p = G.parser(set_line=line, tables=G.oseq("tables", elem=lambda g, nm: g.str(nm)))
+        return dict(args=[p])
+
+    def spec(case, self_):
+        # the second word is the name, the last word (without the terminator) is the value
+        words = self_.set_line.split()
+        self_.tables.append({"name": words[1], "value": words[-1].replace(";", "")})
+        self_.set_line = words
+
+    def ensures(case, old, args, result):
+        return sorted(args[0].tables[-1].keys()) == ["name", "value"]
